@@ -728,6 +728,11 @@ type Sink struct {
 	Instr ssa.Instruction
 	Via   *Edge
 	Note  string
+	// BoolVal: for a boolean return of a non-constant value, the value
+	// returned; the sink "returns want" exactly when BoolVal == BoolWant, so a
+	// guard whose condition is BoolVal itself discharges it.
+	BoolVal  ssa.Value
+	BoolWant bool
 }
 
 // errorConstructors never return nil.
@@ -874,11 +879,15 @@ func BoolReturnSinks(fn *ssa.Function, idx int, want bool) []Sink {
 					continue
 				}
 				pred := b.Preds[i]
-				out = append(out, Sink{Instr: ret, Via: &Edge{pred, succIndex(pred, b)}, Note: "return (phi edge)"})
+				sk := Sink{Instr: ret, Via: &Edge{pred, succIndex(pred, b)}, Note: "return (phi edge)"}
+				if _, isk := ConstBool(e); !isk {
+					sk.BoolVal, sk.BoolWant = e, want
+				}
+				out = append(out, sk)
 			}
 			continue
 		}
-		out = append(out, Sink{Instr: ret, Note: "return (non-constant)"})
+		out = append(out, Sink{Instr: ret, Note: "return (non-constant)", BoolVal: v, BoolWant: want})
 	}
 	return out
 }
